@@ -160,6 +160,10 @@ def encErr : Option EngErr → Json
   | some (.parsing .unnestTwice) => .arr #[.str "parsing", .str "unnest-twice"]
   | some (.parsing .aggWithOrderDistinct) => .arr #[.str "parsing", .str "agg-order-distinct"]
 
+def encWarn4 : Option (Nat × Nat × Nat × Nat) → Json
+  | none => .null
+  | some (a, b, c, d) => .arr #[Json.num (JsonNumber.fromNat a), Json.num (JsonNumber.fromNat b), Json.num (JsonNumber.fromNat c), Json.num (JsonNumber.fromNat d)]
+
 def opQuery (payload : String) : String :=
   match Json.parse payload with
   | .error e => "bad-json " ++ e
@@ -178,6 +182,7 @@ def opQuery (payload : String) : String :=
         ("pulled", Json.num (JsonNumber.fromNat r.pulled)),
         ("writes", Json.num (JsonNumber.fromNat r.sink.writes)),
         ("afterRefusal", Json.num (JsonNumber.fromNat r.sink.afterRefusal)),
-        ("finished", Json.num (JsonNumber.fromNat r.sink.finished))]).compress
+        ("finished", Json.num (JsonNumber.fromNat r.sink.finished)),
+        ("warnA", encWarn4 r.warnA), ("warnB", encWarn4 r.warnB)]).compress
 
 end Driver
